@@ -68,6 +68,13 @@ static inline int h_cmp_result(long long x, long long y)
 #define H_POISON_OBJ(obj) memset(&(obj), H_POISON, sizeof(obj))
 extern int h_init_mismatch;
 
+/* the non-zero value with which the k-th visit asks a traversal to stop: negative for odd k
+ * (a traversal must stop on ANY non-zero value and hand exactly that value back) */
+static inline int h_stop_value(long long k)
+{
+    return (k & 1) ? -3 : 7;
+}
+
 size_t h_size(const char * s);
 long long h_int(const char * s);
 
